@@ -86,6 +86,83 @@ pub fn cli_paths(args: &CLI_ArgsP) -> (r: Vec<FPath>)
     paths
 }
 
+// =====================================================================================================
+// MAIN-FLATTEN — main() turns each named path into its sources (process_path: a file, the files of a walked directory in sorted
+// order, the members of a .tar) and appends them to one list whose indexes become the PathIds: the sources of every argument, in
+// the order process_path gave them, argument after argument (C01: "... sorted path order inside a walked directory")
+#[verifier::external_body]
+pub struct ProcessPathResult { _p: u8 }
+pub type ProcessPathResults = Vec<ProcessPathResult>;
+/// what process_path yields for a path (jwalk, the file system, file-name classification: outside, C15)
+pub uninterp spec fn sources_of(path: &FPath) -> Seq<ProcessPathResult>;
+#[verifier::external_body]
+pub fn process_path(path: &FPath, unparseable_are_text: bool) -> (r: ProcessPathResults) ensures r@ == sources_of(path) { unimplemented!() }
+pub open spec fn flat_from(paths: Seq<FPath>, i: int) -> Seq<ProcessPathResult> decreases paths.len() - i {
+    if i < 0 || i >= paths.len() { Seq::empty() } else { sources_of(&paths[i]) + flat_from(paths, i + 1) }
+}
+//@if path=src/bin/s4.rs regex="for ppresult in ppaths\.into_iter\(\)"
+pub fn main_flatten(paths: &Vec<FPath>) -> (r: ProcessPathResults)
+    requires paths@.len() * 4 <= usize::MAX
+    ensures r@ == flat_from(paths@, 0)
+{
+    let ghost ps = paths@;
+//@cut slice path=src/bin/s4.rs fn=main anchor="let mut processed_paths: ProcessPathResults = ProcessPathResults::with_capacity(paths.len() * 4);" take=range end_anchor="for path in paths.iter()" label=MAIN-FLATTEN
+//@replace "for path in paths.iter()" "for path in it: paths.iter()"
+//@replace "for ppresult in ppaths.into_iter()" "for ppresult in it2: ppaths.into_iter()"
+//@before "for ppresult in it2"
+        let ghost before__ = processed_paths@; let ghost pp0 = ppaths@;
+//@loop 1
+        invariant
+            ps == paths@, it.seq().len() == ps.len(), forall|i: int| 0 <= i < ps.len() ==> *it.seq()[i] == ps[i],
+            processed_paths@ + flat_from(ps, it.index@ as int) == flat_from(ps, 0),
+//@loop 2
+            invariant
+                it2.seq() == pp0, processed_paths@ == before__ + pp0.take(it2.index@ as int),
+                pp0 == sources_of(&ps[it.index@ as int]), ps == paths@, 0 <= it.index@ < ps.len(),
+                before__ + flat_from(ps, it.index@ as int) == flat_from(ps, 0),
+//@loop_end 1
+        proof {
+            assert(pp0.take(pp0.len() as int) =~= pp0);
+            assert(processed_paths@ == before__ + pp0);
+            assert((before__ + pp0) + flat_from(ps, it.index@ as int + 1) =~= before__ + (pp0 + flat_from(ps, it.index@ as int + 1)));
+        }
+//@end
+    proof { assert(processed_paths@ + Seq::<ProcessPathResult>::empty() =~= processed_paths@); }
+    processed_paths
+}
+
+//@else
+// the inner loop is not `for .. in ppaths.into_iter()`: the same contract, without the iterator hints of that form
+pub fn main_flatten(paths: &Vec<FPath>) -> (r: ProcessPathResults)
+    requires paths@.len() * 4 <= usize::MAX
+    ensures r@ == flat_from(paths@, 0)
+{
+    let ghost ps = paths@;
+//@cut slice path=src/bin/s4.rs fn=main anchor="let mut processed_paths: ProcessPathResults = ProcessPathResults::with_capacity(paths.len() * 4);" take=range end_anchor="for path in paths.iter()" label=MAIN-FLATTEN
+//@replace "for path in paths.iter()" "for path in it: paths.iter()"
+//@after "process_path(path, true);"
+        let ghost before__ = processed_paths@; let ghost pp0 = ppaths@;
+//@loop 1
+        invariant
+            ps == paths@, it.seq().len() == ps.len(), forall|i: int| 0 <= i < ps.len() ==> *it.seq()[i] == ps[i],
+            processed_paths@ + flat_from(ps, it.index@ as int) == flat_from(ps, 0),
+//@loop 2
+            invariant
+                pp0 == sources_of(&ps[it.index@ as int]), ps == paths@, 0 <= it.index@ < ps.len(),
+                before__ + flat_from(ps, it.index@ as int) == flat_from(ps, 0),
+            decreases ppaths@.len(),
+//@loop_end 1
+        proof {
+            assert(pp0.take(pp0.len() as int) =~= pp0);
+            assert(processed_paths@ == before__ + pp0);
+            assert((before__ + pp0) + flat_from(ps, it.index@ as int + 1) =~= before__ + (pp0 + flat_from(ps, it.index@ as int + 1)));
+        }
+//@end
+    proof { assert(processed_paths@ + Seq::<ProcessPathResult>::empty() =~= processed_paths@); }
+    processed_paths
+}
+
+//@endif
 /// vacuity guard: must NOT verify
 pub proof fn pth__canary(a: Seq<FPath>)
     requires a.len() == 2, !a[0].is_dash(), a[1].is_dash()
